@@ -50,7 +50,7 @@ func init() {
 				// one of the bundled components in its small harness workflow (C19's
 				// shapes): combinators with several in-ports, selector, splitter,
 				// concatenator, globbers, parameter readers
-				w, _ = componentCase(c)
+				w, _ = componentCaseWellFormed(c)
 				c.Probe("race-component-shape")
 			case 1:
 				w = lazyIPFanoutWF(c)
